@@ -4,7 +4,7 @@
    the binary search.  Part D: the backward reconstruction. *)
 From Coq Require Import List Bool Arith ZArith Lia Sorting.Sorted.
 From Coq.Strings Require Import Byte.
-From GI Require Import Lib.Bytes Gen.DiffConsts Diff.Diff Diff.DiffBase Diff.DiffProofs.
+From GI Require Import Lib.Bytes Gen.DiffConsts Diff.Diff Diff.DiffSpec Diff.DiffBase Diff.DiffProofs.
 Import ListNotations.
 
 (* ================================================================ Part A: the map *)
@@ -166,7 +166,7 @@ Proof.
   - replace (length y) with i by lia. assumption.
   - assert (Hs : nth_error y i = Some s) by (rewrite <- (Nat.add_0_r i), <- Hn; reflexivity).
     assert (Hn' : forall k, nth_error r k = nth_error y (S i + k)).
-    { intro k. rewrite <- Nat.add_succ_r, <- Hn. reflexivity. }
+    { intro k. replace (S i + k) with (i + S k) by lia. rewrite <- Hn. reflexivity. }
     destruct HG as (G1 & G2 & G3).
     (* is there an earlier unique occurrence of s?  No: it would be the same index. *)
     assert (Hearly : forall p, p < i -> nth_error y p = Some s -> Ub s = false).
@@ -265,7 +265,7 @@ Proof.
   - replace (length x) with i by lia. assumption.
   - assert (Hs : nth_error x i = Some s) by (rewrite <- (Nat.add_0_r i), <- Hn; reflexivity).
     assert (Hn' : forall k, nth_error r k = nth_error x (S i + k)).
-    { intro k. rewrite <- Nat.add_succ_r, <- Hn. reflexivity. }
+    { intro k. replace (S i + k) with (i + S k) by lia. rewrite <- Hn. reflexivity. }
     destruct HG as (G1 & G2 & G3).
     pose proof (m3_test s eq_refl) as HT.
     assert (Hskip : Ub s = false -> Gx (S i) xi inv).
@@ -302,4 +302,509 @@ Proof.
   split; [reflexivity|]. split; [reflexivity|]. intros [|t] q Hq; discriminate.
 Qed.
 
+(* ---------------------------------------------------------------- what the later phases use *)
+
+Definition n := length xi.
+
+Lemma J_length : length J = n.
+Proof. destruct Gx_final as (_ & H & _). exact H. Qed.
+
+Lemma filter_seq_sorted (f : nat -> bool) k : forall a, StronglySorted lt (filter f (seq a k)).
+Proof.
+  induction k as [|k IH]; intro a; simpl; [constructor|].
+  assert (Hall : Forall (lt a) (filter f (seq (S a) k))).
+  { apply Forall_forall. intros b Hb. apply filter_In in Hb as [Hb _]. apply in_seq in Hb. lia. }
+  destruct (f a); [constructor|]; auto.
+Qed.
+
+Lemma sorted_nth l : StronglySorted lt l ->
+  forall i j, i < j -> j < length l -> nth i l 0 < nth j l 0.
+Proof.
+  induction 1 as [|a l Hs IH Hf]; intros i j Hij Hj; simpl in *; [lia|].
+  destruct j as [|j]; [lia|]. destruct i as [|i].
+  - rewrite Forall_forall in Hf. apply Hf. apply nth_In. lia.
+  - apply IH; lia.
+Qed.
+
+Lemma xi_incr t t' : t < t' -> t' < n -> nth t xi 0 < nth t' xi 0.
+Proof.
+  intros. apply sorted_nth; try assumption.
+  destruct Gx_final as (-> & _). apply filter_seq_sorted.
+Qed.
+
+Lemma yi_incr j j' : j < j' -> j' < length yi -> nth j yi 0 < nth j' yi 0.
+Proof.
+  intros. apply sorted_nth; try assumption.
+  destruct Gy_final as (-> & _). apply filter_seq_sorted.
+Qed.
+
+(* the t-th pair joins a unique line of x with its occurrence in y *)
+Lemma tri t : t < n ->
+  exists s, nth t J 0 < length yi /\
+    nth_error x (nth t xi 0) = Some s /\ nth_error y (nth (nth t J 0) yi 0) = Some s /\ Ub s = true.
+Proof.
+  intro Ht. destruct Gx_final as (_ & _ & G3).
+  destruct (G3 t (nth t xi 0)) as (j & p & s & A1 & A2 & A3 & A4 & A5).
+  { apply nth_error_nth'. exact Ht. }
+  exists s. rewrite (nth_error_nth _ _ 0 A1), (nth_error_nth _ _ 0 A2).
+  repeat split; try assumption. apply nth_error_Some. congruence.
+Qed.
+
+Lemma NoDup_map_on {A B} (f : A -> B) l :
+  NoDup l -> (forall a b, In a l -> In b l -> f a = f b -> a = b) -> NoDup (map f l).
+Proof.
+  induction 1 as [|a l Hn Hd IH]; intro Hinj; simpl; constructor.
+  - intro Hin. apply in_map_iff in Hin as (b & Hb1 & Hb2).
+    assert (b = a) by (apply Hinj; simpl; auto). subst. contradiction.
+  - apply IH. intros; apply Hinj; simpl; auto.
+Qed.
+
+Lemma in_index_filter (l : list line) p :
+  In p (filter (ub_at l) (seq 0 (length l))) <->
+  exists s, nth_error l p = Some s /\ Ub s = true.
+Proof.
+  rewrite filter_In, in_seq. unfold ub_at. split.
+  - intros [H1 H2]. destruct (nth_error l p) as [s|]; [|discriminate]. eauto.
+  - intros (s & H1 & H2). rewrite H1. split; [|assumption].
+    assert (p < length l) by (apply nth_error_Some; congruence). lia.
+Qed.
+
+Lemma yi_le_n : length yi <= n.
+Proof.
+  unfold n.
+  rewrite <- (map_length (fun p => nth p y []) yi), <- (map_length (fun q => nth q x []) xi).
+  destruct Gy_final as (Ey & _). destruct Gx_final as (Ex & _).
+  apply NoDup_incl_length.
+  - apply NoDup_map_on.
+    + rewrite Ey. apply NoDup_filter, seq_NoDup.
+    + intros a b Ha Hb E. rewrite Ey in Ha, Hb.
+      apply in_index_filter in Ha as (sa & Ha1 & Ha2). apply in_index_filter in Hb as (sb & Hb1 & Hb2).
+      cbv beta in E.
+      assert (sa = sb).
+      { rewrite <- (nth_error_nth _ _ [] Ha1), <- (nth_error_nth _ _ [] Hb1). exact E. }
+      subst sb.
+      eapply Ub_y_unique; eauto.
+  - intros s Hs. apply in_map_iff in Hs as (p & Hp1 & Hp2). rewrite Ey in Hp2.
+    apply in_index_filter in Hp2 as (s' & Hs1 & Hs2).
+    cbv beta in Hp1.
+    assert (s' = s) by (rewrite <- (nth_error_nth _ _ [] Hs1); exact Hp1).
+    subst s'.
+    assert (Hc : 1 <= count_line x s).
+    { unfold Ub in Hs2. apply andb_true_iff in Hs2 as [Hs2 _]. apply Nat.eqb_eq in Hs2. lia. }
+    destruct (count_line_pos x s Hc) as (q & Hq).
+    apply in_map_iff. exists q. split; [apply (nth_error_nth _ _ [] Hq)|].
+    rewrite Ex. apply in_index_filter. eauto.
+Qed.
+
+Lemma J_lt_n t : t < n -> nth t J 0 < n.
+Proof. intro Ht. destruct (tri t Ht) as (s & H & _). pose proof yi_le_n. lia. Qed.
+
+(* the pair a slot of the result holds *)
+Definition pr (t : nat) : nat * nat := (nth t xi 0, nth (nth t J 0) yi 0).
+
+Lemma pr_anchor_ok t : t < n -> anchor_ok x y (pr t) = true.
+Proof.
+  intro Ht. destruct (tri t Ht) as (s & _ & A1 & A2 & A3).
+  unfold anchor_ok, pr. simpl. rewrite A1, A2, bytes_eqb_refl. exact A3.
+Qed.
+
+Lemma pr_lt t t' : t < t' -> t' < n -> nth t J 0 < nth t' J 0 ->
+  fst (pr t) < fst (pr t') /\ snd (pr t) < snd (pr t').
+Proof.
+  intros H1 H2 H3. unfold pr. simpl. split.
+  - apply xi_incr; assumption.
+  - apply yi_incr; [assumption|]. destruct (tri t' H2) as (s & H & _). exact H.
+Qed.
+
 End Tgs.
+
+(* ================================================================ Part C: binary search and patience arrays *)
+
+Lemma div2_mid lo hi : lo < hi -> lo <= Nat.div2 (lo + hi) /\ Nat.div2 (lo + hi) < hi.
+Proof.
+  intro H. rewrite Nat.div2_div. split.
+  - apply Nat.div_le_lower_bound; lia.
+  - apply Nat.div_lt_upper_bound; lia.
+Qed.
+
+(* sort.Search on a monotone predicate returns the least index satisfying it (or the bound) *)
+Lemma search_loop_spec (m : nat) (f : nat -> res bool) (p : nat -> bool) :
+  (forall k, k < m -> f k = Ok (p k)) ->
+  (forall k k', k <= k' -> k' < m -> p k = true -> p k' = true) ->
+  forall fuel lo hi, hi <= m -> lo <= hi -> hi - lo <= fuel ->
+    (forall k, k < lo -> p k = false) -> (forall k, hi <= k -> k < m -> p k = true) ->
+    exists r, search_loop fuel f lo hi = Ok r /\ lo <= r /\ r <= hi /\
+      (forall k, k < r -> p k = false) /\ (forall k, r <= k -> k < m -> p k = true).
+Proof.
+  intros Hf Hmono. induction fuel as [|fu IH]; intros lo hi H1 H2 H3 H4 H5.
+  - assert (lo = hi) by lia. subst. simpl. rewrite Nat.ltb_irrefl.
+    exists hi. repeat split; auto.
+  - simpl. destruct (Nat.ltb_spec lo hi) as [Hlt | Hge].
+    + destruct (div2_mid lo hi Hlt) as [M1 M2]. set (h := Nat.div2 (lo + hi)) in *.
+      rewrite Hf by lia. simpl. destruct (p h) eqn:Ep; simpl.
+      * destruct (IH lo h) as (r & Er & R1 & R2 & R3 & R4); try lia; try assumption.
+        { intros k Hk Hkm. apply (Hmono h k); assumption. }
+        exists r. repeat split; try assumption; lia.
+      * destruct (IH (h + 1) hi) as (r & Er & R1 & R2 & R3 & R4); try lia; try assumption.
+        { intros k Hk. destruct (p k) eqn:Epk; [|reflexivity].
+          rewrite (Hmono k h) in Ep; [discriminate | lia | lia | assumption]. }
+        exists r. repeat split; try assumption; lia.
+    + assert (lo = hi) by lia. subst. exists hi. repeat split; auto.
+Qed.
+
+Lemma nth_repeat_lt {A} (a d : A) m l : l < m -> nth l (repeat a m) d = a.
+Proof. revert l. induction m as [|m IH]; intros [|l] H; simpl; try lia; auto. apply IH. lia. Qed.
+
+Section Patience.
+Variable n : nat.
+Variable J : list nat.
+Hypothesis J_len : length J = n.
+Hypothesis J_lt : forall t, t < n -> nth t J 0 < n.
+
+(* after the first i elements: f levels are in use; T is strictly increasing on its first f
+   entries and n+1 beyond; T[l] is the J-value of the latest index of level l+1; every processed
+   index of level >= 2 has, as its latest predecessor of the level below, one with a smaller
+   J-value *)
+Definition PI (i f : nat) (T L : list nat) : Prop :=
+  length T = n /\ length L = n /\ f <= i /\
+  (forall l l', l < l' -> l' < f -> nth l T 0 < nth l' T 0) /\
+  (forall l, f <= l -> l < n -> nth l T 0 = n + 1) /\
+  (forall l, l < f -> exists t, t < i /\ nth t L 0 = l + 1 /\ nth l T 0 = nth t J 0 /\
+       forall t', t < t' -> t' < i -> nth t' L 0 <> l + 1) /\
+  (forall t, t < i -> 1 <= nth t L 0 /\ nth t L 0 <= f) /\
+  (forall t, t < i -> 2 <= nth t L 0 -> exists t', t' < t /\ nth t' L 0 = nth t L 0 - 1 /\
+       nth t' J 0 < nth t J 0 /\
+       forall t'', t' < t'' -> t'' < t -> nth t'' L 0 <> nth t L 0 - 1).
+
+Lemma patience_step i f T L : PI i f T L -> i < n ->
+  exists k T' L' f',
+    sort_search n (fun k => do tk <- idx T k; Ok (nth i J 0 <=? tk)) = Ok k /\
+    upd T k (nth i J 0) = Ok T' /\ upd L i (k + 1) = Ok L' /\ PI (S i) f' T' L'.
+Proof.
+  intros (PT & PL & Pf & Pinc & Pinf & Plat & Plev & Ppred) Hi.
+  set (ji := nth i J 0). assert (Hji : ji < n) by (apply J_lt; assumption).
+  set (p := fun k => ji <=? nth k T 0).
+  assert (Tval : forall l, l < f -> nth l T 0 < n).
+  { intros l Hl. destruct (Plat l Hl) as (t & Ht & _ & E & _). rewrite E. apply J_lt. lia. }
+  assert (Hmono : forall k k', k <= k' -> k' < n -> p k = true -> p k' = true).
+  { unfold p. intros k k' Hk Hk' Hp. apply Nat.leb_le in Hp. apply Nat.leb_le.
+    destruct (Nat.eq_dec k k'); [subst; assumption|].
+    destruct (Nat.lt_ge_cases k' f).
+    - specialize (Pinc k k' ltac:(lia) ltac:(lia)). lia.
+    - rewrite (Pinf k') by lia. lia. }
+  destruct (search_loop_spec n (fun k => do tk <- idx T k; Ok (ji <=? tk)) p) with (fuel := n) (lo := 0) (hi := n)
+    as (r & Er & _ & _ & R3 & R4); try lia; try assumption.
+  { intros k Hk. rewrite (idx_ok T k 0) by lia. reflexivity. }
+  assert (Hrf : r <= f).
+  { destruct (Nat.le_gt_cases r f); [assumption|exfalso].
+    specialize (R3 f ltac:(lia)). unfold p in R3. rewrite (Pinf f) in R3 by lia.
+    apply Nat.leb_gt in R3. lia. }
+  assert (A : forall l, l < r -> nth l T 0 < ji).
+  { intros l Hl. specialize (R3 l Hl). unfold p in R3. apply Nat.leb_gt in R3. assumption. }
+  assert (B : r < f -> ji <= nth r T 0).
+  { intro Hr. specialize (R4 r ltac:(lia) ltac:(lia)). unfold p in R4. apply Nat.leb_le in R4. assumption. }
+  destruct (upd_ok T r ji) as (T' & ET & HTl & HT'); [lia|].
+  destruct (upd_ok L i (r + 1)) as (L' & EL & HLl & HL'); [lia|].
+  assert (HTne : forall j, j <> r -> nth j T' 0 = nth j T 0).
+  { intros j Hj. rewrite HT'. destruct (Nat.eqb_spec j r); [contradiction | reflexivity]. }
+  assert (HTeq : nth r T' 0 = ji) by (rewrite HT', Nat.eqb_refl; reflexivity).
+  assert (HLne : forall j, j <> i -> nth j L' 0 = nth j L 0).
+  { intros j Hj. rewrite HL'. destruct (Nat.eqb_spec j i); [contradiction | reflexivity]. }
+  assert (HLeq : nth i L' 0 = r + 1) by (rewrite HL', Nat.eqb_refl; reflexivity).
+  exists r, T', L', (if r =? f then S f else f).
+  split; [exact Er|]. split; [exact ET|]. split; [exact EL|].
+  assert (Hf' : (r = f /\ (if r =? f then S f else f) = S f) \/ (r < f /\ (if r =? f then S f else f) = f)).
+  { destruct (Nat.eqb_spec r f); [left | right]; split; auto; lia. }
+  set (f' := if r =? f then S f else f) in *. clearbody f'.
+  unfold PI. split; [lia|]. split; [lia|]. split; [lia|].
+  split; [|split; [|split; [|split]]].
+  - (* strictly increasing *)
+    intros l l' Hll' Hl'.
+    destruct (Nat.eq_dec l r) as [-> | Hlr], (Nat.eq_dec l' r) as [-> | Hl'r].
+    + lia.
+    + rewrite HTeq, (HTne l') by assumption.
+      destruct Hf' as [[E1 E2] | [E1 E2]]; [lia|].
+      specialize (Pinc r l' ltac:(lia) ltac:(lia)). specialize (B E1). lia.
+    + rewrite HTeq, (HTne l) by assumption. apply A. lia.
+    + rewrite (HTne l), (HTne l') by assumption. apply Pinc; lia.
+  - intros l Hl Hln. rewrite HTne by lia. apply Pinf; lia.
+  - (* latest index of each level *)
+    intros l Hl. destruct (Nat.eq_dec l r) as [-> | Hlr].
+    + exists i. split; [lia|]. split; [exact HLeq|]. split; [exact HTeq|]. intros; lia.
+    + destruct (Plat l) as (t & Ht & E1 & E2 & E3); [lia|].
+      exists t. split; [lia|]. rewrite HLne, HTne by lia. split; [assumption|]. split; [assumption|].
+      intros t' H1 H2. destruct (Nat.eq_dec t' i) as [-> | Hne].
+      * rewrite HLeq. lia.
+      * rewrite HLne by assumption. apply E3; lia.
+  - intros t Ht. destruct (Nat.eq_dec t i) as [-> | Hne].
+    + rewrite HLeq. lia.
+    + rewrite HLne by assumption. specialize (Plev t ltac:(lia)). lia.
+  - (* predecessors *)
+    intros t Ht H2. destruct (Nat.eq_dec t i) as [-> | Hne].
+    + rewrite HLeq in *.
+      destruct (Plat (r - 1)) as (t' & Ht' & E1 & E2 & E3); [lia|].
+      exists t'. split; [lia|]. rewrite HLne by lia. split; [lia|]. split.
+      * rewrite <- E2. apply A. lia.
+      * intros t'' H3 H4. rewrite HLne by lia. specialize (E3 t'' H3 H4). lia.
+    + rewrite HLne in * by assumption.
+      destruct (Ppred t) as (t' & Ht' & E1 & E2 & E3); [lia | assumption |].
+      exists t'. split; [assumption|]. rewrite HLne by lia. split; [assumption|]. split; [assumption|].
+      intros t'' H3 H4. rewrite HLne by lia. apply E3; assumption.
+Qed.
+
+Lemma patience_run : forall k i f T L, i + k = n -> PI i f T L ->
+  exists T' L' f', patience (seq i k) n J T L = Ok (T', L') /\ PI n f' T' L'.
+Proof.
+  induction k as [|k IH]; intros i f T L Hik HP; simpl.
+  - replace n with i by lia. eauto.
+  - rewrite (idx_ok J i 0) by lia. simpl.
+    destruct (patience_step i f T L HP) as (r & T' & L' & f' & Es & ET & EL & HP'); [lia|].
+    rewrite Es. simpl. rewrite ET. simpl. rewrite EL. simpl.
+    apply (IH (S i) f'); [lia | assumption].
+Qed.
+
+Lemma PI_init : PI 0 0 (repeat (n + 1) n) (repeat 0 n).
+Proof.
+  unfold PI. rewrite !repeat_length.
+  split; [reflexivity|]. split; [reflexivity|]. split; [lia|].
+  split; [intros; lia|]. split; [intros; apply nth_repeat_lt; assumption|].
+  split; [intros; lia|]. split; intros; lia.
+Qed.
+
+End Patience.
+
+(* ================================================================ Part D: the backward reconstruction *)
+
+Lemma max_level_fold L : forall k0,
+  k0 <= fold_left (fun k v => if k <? v then v else k) L k0 /\
+  (forall v, In v L -> v <= fold_left (fun k v => if k <? v then v else k) L k0) /\
+  (fold_left (fun k v => if k <? v then v else k) L k0 = k0 \/
+   In (fold_left (fun k v => if k <? v then v else k) L k0) L).
+Proof.
+  induction L as [|a L IH]; intro k0; simpl.
+  - split; [lia|]. split; [intros v []|]. left. reflexivity.
+  - destruct (IH (if k0 <? a then a else k0)) as (H1 & H2 & H3).
+    set (K := fold_left (fun k v => if k <? v then v else k) L (if k0 <? a then a else k0)) in *.
+    destruct (Nat.ltb_spec k0 a).
+    + split; [lia|]. split.
+      * intros v [<- | Hv]; [lia | apply H2; assumption].
+      * destruct H3 as [H3 | H3]; right; [left; congruence | right; assumption].
+    + split; [lia|]. split.
+      * intros v [<- | Hv]; [lia | apply H2; assumption].
+      * destruct H3 as [H3 | H3]; [left; assumption | right; right; assumption].
+Qed.
+
+Lemma max_level_ge L t : t < length L -> nth t L 0 <= max_level L.
+Proof. intro H. apply (max_level_fold L 0). apply nth_In. assumption. Qed.
+
+Lemma max_level_attained L : max_level L = 0 \/ exists t, t < length L /\ nth t L 0 = max_level L.
+Proof.
+  destruct (max_level_fold L 0) as (_ & _ & [H | H]); [left; exact H|].
+  right. destruct (In_nth _ _ 0 H) as (t & Ht & E). eauto.
+Qed.
+
+
+Section Backward.
+Variable n : nat.
+Variables J L xi yi : list nat.
+Variable e : nat * nat.
+Hypothesis J_len : length J = n.
+Hypothesis L_len : length L = n.
+Hypothesis xi_len : length xi = n.
+Hypothesis J_lt : forall t, t < n -> nth t J 0 < n.
+Hypothesis Jy : forall t, t < n -> nth t J 0 < length yi.
+Hypothesis Lv : forall t, t < n -> 1 <= nth t L 0.
+Hypothesis PP : forall t, t < n -> 2 <= nth t L 0 ->
+  exists t', t' < t /\ nth t' L 0 = nth t L 0 - 1 /\ nth t' J 0 < nth t J 0 /\
+    forall t'', t' < t'' -> t'' < t -> nth t'' L 0 <> nth t L 0 - 1.
+
+Definition prB (t : nat) : nat * nat := (nth t xi 0, nth (nth t J 0) yi 0).
+Hypothesis prB_lt : forall t t', t < t' -> t' < n -> nth t J 0 < nth t' J 0 -> lt2 (prB t) (prB t').
+
+Definition K := max_level L.
+Definition d0 : nat * nat := (0, 0).
+
+(* indices i-1 .. 0 are still to be scanned; slots k+1 .. K are filled *)
+Definition BI (i k : nat) (sq : list (nat * nat)) : Prop :=
+  length sq = K + 2 /\ k <= K /\
+  (forall l, k < l -> l <= K -> exists t, t < n /\ nth l sq d0 = prB t) /\
+  (forall l, k < l -> l < K -> lt2 (nth l sq d0) (nth (S l) sq d0)) /\
+  nth (K + 1) sq d0 = e /\
+  (k < K -> exists t, i <= t /\ t < n /\ nth t L 0 = k + 1 /\ nth (k + 1) sq d0 = prB t /\
+            forall t', i <= t' -> t' < t -> nth t' L 0 <> k) /\
+  (k = K -> forall t, i <= t -> t < n -> nth t L 0 <> K).
+
+Lemma rev_seq_S i : rev (seq 0 (S i)) = i :: rev (seq 0 i).
+Proof. rewrite seq_S, rev_app_distr. reflexivity. Qed.
+
+Lemma backward_run : forall i k sq, i <= n -> BI i k sq ->
+  exists sq' k', backward (rev (seq 0 i)) k n J L xi yi sq = Ok sq' /\ BI 0 k' sq'.
+Proof.
+  induction i as [|i IH]; intros k sq Hi HB.
+  - simpl. eauto.
+  - rewrite rev_seq_S. simpl.
+    destruct HB as (B1 & B2 & B3 & B4 & B5 & B6 & B7).
+    rewrite (idx_ok L i 0) by lia. simpl.
+    destruct (Nat.eqb_spec (nth i L 0) k) as [Ek | Nk].
+    + (* slot k is filled with the pair of index i *)
+      pose proof (Lv i ltac:(lia)) as Hk1.
+      rewrite (idx_ok J i 0) by lia. simpl.
+      destruct (Nat.ltb_spec (nth i J 0) n) as [_ | Hbad]; [|specialize (J_lt i ltac:(lia)); lia].
+      rewrite (idx_ok xi i 0) by lia. simpl.
+      rewrite (idx_ok yi (nth i J 0) 0) by (apply Jy; lia). simpl.
+      destruct (upd_ok sq k (nth i xi 0, nth (nth i J 0) yi 0)) as (sq' & Eu & Hl' & Hn'); [lia|].
+      rewrite Eu. simpl.
+      assert (Hne : forall j, j <> k -> nth j sq' d0 = nth j sq d0).
+      { intros j Hj. rewrite Hn'. destruct (Nat.eqb_spec j k); [contradiction | reflexivity]. }
+      assert (Heq : nth k sq' d0 = prB i) by (rewrite Hn', Nat.eqb_refl; reflexivity).
+      apply IH; [lia|].
+      unfold BI. split; [lia|]. split; [lia|].
+      split; [|split; [|split; [|split]]].
+      * intros l H1 H2. destruct (Nat.eq_dec l k) as [-> | Hlk].
+        -- exists i. split; [lia | exact Heq].
+        -- rewrite Hne by assumption. apply B3; lia.
+      * intros l H1 H2. destruct (Nat.eq_dec l k) as [-> | Hlk].
+        -- rewrite Heq, Hne by lia.
+           destruct B6 as (t & T1 & T2 & T3 & T4 & T5); [lia|].
+           replace (k + 1) with (S k) in T4 by lia. rewrite T4.
+           destruct (PP t T2 ltac:(lia)) as (t' & P1 & P2 & P3 & P4).
+           assert (t' = i).
+           { destruct (Nat.lt_trichotomy t' i) as [Hlt | [Heq' | Hgt]]; [exfalso | assumption | exfalso].
+             - apply (P4 i); lia.
+             - apply (T5 t'); lia. }
+           subst t'. apply prB_lt; assumption.
+        -- rewrite !Hne by lia. apply B4; lia.
+      * rewrite Hne by lia. assumption.
+      * intros _. exists i. split; [lia|]. split; [lia|]. split; [lia|].
+        replace (Nat.pred k + 1) with k by lia. split; [exact Heq|]. intros; lia.
+      * intros; lia.
+    + apply IH; [lia|].
+      unfold BI. split; [assumption|]. split; [assumption|]. split; [assumption|].
+      split; [assumption|]. split; [assumption|]. split.
+      * intro Hk. destruct (B6 Hk) as (t & T1 & T2 & T3 & T4 & T5).
+        exists t. split; [lia|]. split; [assumption|]. split; [assumption|]. split; [assumption|].
+        intros t' H1 H2. destruct (Nat.eq_dec t' i) as [-> | Hne]; [assumption|]. apply T5; lia.
+      * intros Hk t H1 H2. destruct (Nat.eq_dec t i) as [-> | Hne]; [congruence|]. apply B7; auto; lia.
+Qed.
+
+Lemma BI_final k sq : BI 0 k sq -> k = 0.
+Proof.
+  intros (B1 & B2 & B3 & B4 & B5 & B6 & B7).
+  destruct k as [|k]; [reflexivity | exfalso].
+  destruct (Nat.eq_dec (S k) K) as [E | N].
+  - destruct (max_level_attained L) as [Z | (t & Ht & Et)]; fold K in *; [lia|].
+    apply (B7 E t); lia.
+  - destruct B6 as (t & T1 & T2 & T3 & T4 & T5); [lia|].
+    destruct (PP t T2 ltac:(lia)) as (t' & P1 & P2 & P3 & P4).
+    apply (T5 t'); lia.
+Qed.
+
+(* the three last statements of tgs *)
+Lemma reconstruct_ok :
+  exists ms,
+    (do sq <- upd (repeat d0 (2 + K)) (1 + K) e;
+     do sq <- backward (rev (seq 0 n)) K n J L xi yi sq;
+     upd sq 0 d0) = Ok ms /\
+    length ms = K + 2 /\ nth 0 ms d0 = d0 /\ nth (K + 1) ms d0 = e /\
+    (forall l, 1 <= l -> l <= K -> exists t, t < n /\ nth l ms d0 = prB t) /\
+    (forall l, 1 <= l -> l < K -> lt2 (nth l ms d0) (nth (S l) ms d0)).
+Proof.
+  destruct (upd_ok (repeat d0 (2 + K)) (1 + K) e) as (sq1 & E1 & Hl1 & Hn1).
+  { rewrite repeat_length. lia. }
+  rewrite repeat_length in Hl1.
+  rewrite E1. simpl.
+  destruct (backward_run n K sq1) as (sq2 & k' & E2 & HB); [lia| |].
+  { unfold BI. split; [lia|]. split; [lia|]. split; [intros; lia|]. split; [intros; lia|].
+    split; [|split; intros; lia].
+    rewrite Hn1. replace (K + 1 =? 1 + K) with true by (symmetry; apply Nat.eqb_eq; lia). reflexivity. }
+  rewrite E2. simpl.
+  pose proof (BI_final k' sq2 HB). subst k'.
+  destruct HB as (B1 & B2 & B3 & B4 & B5 & _).
+  destruct (upd_ok sq2 0 d0) as (ms & E3 & Hl3 & Hn3); [lia|].
+  exists ms. split; [exact E3|]. split; [lia|].
+  split; [rewrite Hn3; reflexivity|].
+  split; [rewrite Hn3; replace (K + 1 =? 0) with false by (symmetry; apply Nat.eqb_neq; lia); exact B5|].
+  split.
+  - intros l H1 H2. rewrite Hn3. destruct (Nat.eqb_spec l 0); [lia|]. apply B3; lia.
+  - intros l H1 H2. rewrite !Hn3. destruct (Nat.eqb_spec l 0); [lia|]. simpl. apply B4; lia.
+Qed.
+
+End Backward.
+
+(* ================================================================ assembly *)
+
+Lemma tgs_unfold x y :
+  tgs x y =
+  (do TL <- patience (seq 0 (n x y)) (n x y) (J x y) (repeat (n x y + 1) (n x y)) (repeat 0 (n x y));
+   do sq <- upd (repeat (0, 0) (2 + max_level (snd TL))) (1 + max_level (snd TL)) (length x, length y);
+   do sq <- backward (rev (seq 0 (n x y))) (max_level (snd TL)) (n x y) (J x y) (snd TL) (xi x y) (yi x y) sq;
+   upd sq 0 (0, 0)).
+Proof. reflexivity. Qed.
+
+Lemma list_last_shape {A} (d : A) : forall k (l : list A), length l = k + 1 -> l = firstn k l ++ [nth k l d].
+Proof.
+  induction k as [|k IH]; intros [|a l] H; simpl in *; try lia.
+  - destruct l; [reflexivity | simpl in H; lia].
+  - f_equal. apply IH. lia.
+Qed.
+
+Lemma nth_firstn_lt {A} (d : A) : forall k (l : list A) i, i < k -> nth i (firstn k l) d = nth i l d.
+Proof.
+  induction k as [|k IH]; intros [|a l] [|i] H; simpl; try lia; auto. apply IH. lia.
+Qed.
+
+Lemma increasing_nth (l : list (nat * nat)) :
+  (forall i, S i < length l -> lt2 (nth i l (0, 0)) (nth (S i) l (0, 0))) -> increasing l = true.
+Proof.
+  induction l as [|p l IH]; intro H; [reflexivity|].
+  destruct l as [|q l]; [reflexivity|].
+  change (increasing (p :: q :: l)) with ((fst p <? fst q) && (snd p <? snd q) && increasing (q :: l)).
+  destruct (H 0) as [H1 H2]; [simpl; lia|]. simpl in H1, H2.
+  apply Nat.ltb_lt in H1, H2. rewrite H1, H2. simpl. apply IH.
+  intros i Hi. apply (H (S i)). simpl in *. lia.
+Qed.
+
+(* tgs returns the two sentinels around pairs that are in range, strictly increasing in both
+   coordinates, and pair a line occurring exactly once in x with its unique occurrence in y *)
+Theorem tgs_matches_ok x y : exists ms, tgs x y = Ok ms /\ matches_ok x y ms.
+Proof.
+  rewrite tgs_unfold.
+  destruct (patience_run (n x y) (J x y) (J_length x y) (J_lt_n x y) (n x y) 0 0
+              (repeat (n x y + 1) (n x y)) (repeat 0 (n x y))) as (T & L & f & EP & HP).
+  { reflexivity. } { apply PI_init; try apply J_length; try apply J_lt_n. }
+  rewrite EP. cbn [bind snd].
+  destruct HP as (_ & PL & _ & _ & _ & _ & Plev & Ppred).
+  destruct (reconstruct_ok (n x y) (J x y) L (xi x y) (yi x y) (length x, length y))
+    as (ms & E & Hlen & H0 & Hend & Hin & Hinc).
+  - apply J_length.
+  - exact PL.
+  - reflexivity.
+  - apply J_lt_n.
+  - intros t Ht. destruct (tri x y t Ht) as (s & H & _). exact H.
+  - intros t Ht. apply Plev. assumption.
+  - exact Ppred.
+  - intros t t' H1 H2 H3. apply (pr_lt x y t t'); assumption.
+  - unfold d0, K in *. rewrite E. exists ms. split; [reflexivity|].
+    set (k := max_level L) in *.
+    exists (firstn k (tl ms)). split; [|split].
+    + destruct ms as [|a ms']; [simpl in Hlen; lia|].
+      replace (k + 1) with (S k) in Hend by lia. simpl in H0, Hend, Hlen. subst a.
+      simpl. f_equal. rewrite <- Hend. apply list_last_shape. lia.
+    + apply Forall_forall. intros p Hp.
+      destruct (In_nth _ _ (0, 0) Hp) as (i & Hi & Ei).
+      rewrite firstn_length in Hi.
+      rewrite nth_firstn_lt in Ei by lia.
+      destruct ms as [|a ms']; [simpl in Hlen; lia|]. simpl in Ei.
+      destruct (Hin (S i)) as (t & Ht & Et); try lia.
+      simpl in Et. rewrite <- Ei, Et. apply (pr_anchor_ok x y). assumption.
+    + apply increasing_nth. intros i Hi. rewrite firstn_length in Hi.
+      rewrite !nth_firstn_lt by lia.
+      destruct ms as [|a ms']; [simpl in Hlen; lia|]. simpl.
+      specialize (Hinc (S i)). simpl in Hinc. apply Hinc; lia.
+Qed.
+
+Theorem tgs_ok_true x y : tgs_ok x y = true.
+Proof.
+  destruct (tgs_matches_ok x y) as (ms & E & H). unfold tgs_ok. rewrite E.
+  apply tgs_ok_list_matches_ok. assumption.
+Qed.
